@@ -246,12 +246,33 @@ for _prec in (None, "left_lu"):
 def b_nonherm(nmin):
     def b(src):
         n = src.i(nmin, 4)
-        kind = src.pick(["perturbed_hermitian", "perturbed_hermitian", "generic"])
+        kind = src.pick(["perturbed_hermitian", "perturbed_hermitian", "generic", "single_component", "single_component"])
         A = src.r(n, n, 4)
-        if kind == "perturbed_hermitian":
+        if kind in ("perturbed_hermitian", "single_component"):
             A = _herm(A)
         i, j = src.i(0, n - 1), src.i(0, n - 1)
         d = src.r(4)
+        if kind == "single_component":
+            # the departure from Hermitian symmetry lives in ONE of the four components only (one entry, or a whole
+            # symmetric / skew plane added to that component)
+            c = src.i(1, 3) if i == j else src.i(0, 3)
+            amp = float(np.max(np.abs(A))) or 1.0
+            if src.pick([True, False]):
+                A[i, j, c] += amp * src.pick([0.5, 1.0, -1.0, 2.0])
+            else:
+                Sp = src.r(n, n)
+                Sp = (Sp + Sp.T) if c > 0 else (Sp - Sp.T)       # wrong symmetry for that component
+                if not np.any(Sp):
+                    Sp[i, j] = 1.0
+                    if c > 0:
+                        Sp[j, i] = 1.0
+                    elif i != j:
+                        Sp[j, i] = -1.0
+                    else:
+                        c, Sp[i, j] = 1, 1.0
+                A[:, :, c] += Sp * (amp / (float(np.max(np.abs(Sp))) or 1.0))
+            d = np.zeros(4)
+            d[c] = amp                        # used by the margin guard below only (keeps the single-component form)
         if i == j:
             d[0] = 0.0
             if float(np.sum(d[1:] ** 2)) < 1.0 / 256:
